@@ -285,6 +285,53 @@ pub struct CallRec {
     pub changed: u64,
 }
 
+thread_local! {
+    /// First contradiction between a stream's `size_hint()` and what the stream then yielded, seen by
+    /// a device or by the buffering shim during the current run (taken by the property's oracle).
+    static HINT_BREACH: std::cell::RefCell<Option<String>> = std::cell::RefCell::new(None);
+    /// An unbounded internal-iteration consumer met a stream that did not end (see UNBOUNDED_LIMIT).
+    static UNBOUNDED_ABORT: std::cell::Cell<bool> = std::cell::Cell::new(false);
+}
+
+/// Colours beyond the area's `w*h` after which an unbounded `for_each` consumer gives up (by unwinding).
+pub const UNBOUNDED_LIMIT: u64 = 1_000_000;
+pub const UNBOUNDED_MSG: &str = "simulated consumer: the colour stream did not end within area + 1000000 colours";
+
+pub fn take_hint_breach() -> Option<String> {
+    HINT_BREACH.with(|h| h.borrow_mut().take())
+}
+pub fn take_unbounded_abort() -> bool {
+    UNBOUNDED_ABORT.with(|u| u.replace(false))
+}
+pub fn abort_unbounded() -> ! {
+    UNBOUNDED_ABORT.with(|u| u.set(true));
+    std::panic::panic_any(String::from(UNBOUNDED_MSG))
+}
+
+/// `Iterator::size_hint` is part of the iterator protocol: a consumer may size its transfer by the
+/// lower bound and stop at the upper bound. `min_total` items were certainly yielded; if the stream
+/// was seen to end, it yielded at most `ended_max` in total.
+pub fn note_hint(what: &str, hint: (usize, Option<usize>), min_total: u64, ended_max: Option<u64>) {
+    let (lo, hi) = hint;
+    let msg = match (hi, ended_max) {
+        (Some(h), _) if min_total > h as u64 => format!(
+            "{}: size_hint() was ({}, Some({})) but the stream then yielded at least {} item(s); a consumer that stops at the announced upper bound loses the rest",
+            what, lo, h, min_total
+        ),
+        (_, Some(mx)) if lo as u64 > mx => format!(
+            "{}: size_hint() was ({}, {:?}) but the stream ended after {} item(s); a consumer that sizes its transfer by the announced lower bound sends stale data",
+            what, lo, hi, mx
+        ),
+        _ => return,
+    };
+    HINT_BREACH.with(|h| {
+        let mut h = h.borrow_mut();
+        if h.is_none() {
+            *h = Some(msg);
+        }
+    });
+}
+
 pub struct DevState {
     pub bbox: Rectangle,
     pub rb: R,
@@ -325,6 +372,9 @@ pub struct DevState {
     pub shape: Hash64,
     pub trace: Hash64,
     pub max_surplus: u64,
+    /// the streams this device receives through `fill_contiguous` are finite by the property under
+    /// check (C09: image colour streams), so its DrainBounded discipline may drain without bound
+    pub unbounded_ok: bool,
 }
 
 pub struct SimDisplay<C: SimColor> {
@@ -384,6 +434,7 @@ impl DevState {
             shape: Hash64::new(),
             trace: Hash64::new(),
             max_surplus: 0,
+            unbounded_ok: false,
         }
     }
 
@@ -722,20 +773,25 @@ impl<C: SimColor> SimDisplay<C> {
         // DrainBounded and SkipHidden devices whenever no mid-stream fault is planned for this call
         // (a fault needs the loop so that it can stop after j items).
         let fault_here = matches!(st.fault, Some(f) if f.at_call == st.n_calls && f.at_item.is_some());
+        let hint = pixels.size_hint();
         if matches!(st.disc, Discipline::DrainBounded | Discipline::SkipHidden) && !fault_here && !st.budget_exceeded {
+            let mut count = 0u64;
             pixels.for_each(|Pixel(p, c)| {
                 let c = c.to_u32();
+                count += 1;
                 st.note_item(p.x, p.y, c);
                 st.store(p.x as i64, p.y as i64, c);
             });
             if st.cur_valid {
                 st.calls[st.cur].stream_ended = true;
             }
+            note_hint("pixel stream passed to draw_iter", hint, count, Some(count));
             return Ok(());
         }
         let mut pulled = 0u64;
         loop {
             if let Some(e) = st.fail_at_item(pulled) {
+                note_hint("pixel stream passed to draw_iter", hint, pulled, None);
                 return Err(e);
             }
             match pixels.next() {
@@ -743,6 +799,7 @@ impl<C: SimColor> SimDisplay<C> {
                     if st.cur_valid {
                         st.calls[st.cur].stream_ended = true;
                     }
+                    note_hint("pixel stream passed to draw_iter", hint, pulled, Some(pulled));
                     return Ok(());
                 }
                 Some(Pixel(p, c)) => {
@@ -756,6 +813,7 @@ impl<C: SimColor> SimDisplay<C> {
     }
 
     fn native_fill_contiguous<I: Iterator<Item = C>>(&mut self, area: &Rectangle, mut colors: I) -> Result<(), SimError> {
+        const WHAT: &str = "colour stream passed to fill_contiguous";
         let st = &mut self.st;
         st.set_executed_by(Method::FillContiguous);
         if let Some(e) = st.fail_at_start() {
@@ -765,6 +823,7 @@ impl<C: SimColor> SimDisplay<C> {
         let (w, h) = (ra.w().max(0), ra.h().max(0));
         let n = if ra.is_empty() { 0u64 } else { (w * h) as u64 };
         let mut pulled = 0u64;
+        let hint = colors.size_hint();
         if st.disc == Discipline::SkipHidden {
             let vis = ra.intersect(&st.rb);
             if vis.is_empty() {
@@ -779,6 +838,7 @@ impl<C: SimColor> SimDisplay<C> {
                         if st.cur_valid {
                             st.calls[st.cur].stream_ended = true;
                         }
+                        note_hint(WHAT, hint, consumed, Some(consumed + skip - 1));
                         break 'rows;
                     }
                     consumed += skip;
@@ -792,6 +852,7 @@ impl<C: SimColor> SimDisplay<C> {
                             if st.cur_valid {
                                 st.calls[st.cur].stream_ended = true;
                             }
+                            note_hint(WHAT, hint, consumed, Some(consumed));
                             break 'rows;
                         }
                         Some(c) => {
@@ -804,10 +865,68 @@ impl<C: SimColor> SimDisplay<C> {
                     }
                 }
             }
+            note_hint(WHAT, hint, consumed, None);
             return Ok(());
         }
-        // the points of the area in row-major order, own loop
+        // one colour arrives: pair it with the next point of the area (row-major, own arithmetic) or
+        // count it as surplus
+        #[inline]
+        fn place(st: &mut DevState, ra: &R, w: i64, n: u64, idx: &mut u64, pulled: &mut u64, c: u32) {
+            *pulled += 1;
+            if *idx < n {
+                let x = ra.x0 + (*idx % w as u64) as i64;
+                let y = ra.y0 + (*idx / w as u64) as i64;
+                st.note_item(x as i32, y as i32, c);
+                st.store(x, y, c);
+                *idx += 1;
+            } else {
+                // surplus colour: no point left to pair it with
+                st.note_item(i32::MIN, i32::MIN, c);
+                if st.cur_valid {
+                    st.calls[st.cur].surplus += 1;
+                }
+                let s = *pulled - n;
+                if s > st.max_surplus {
+                    st.max_surplus = s;
+                }
+            }
+        }
         let mut idx = 0u64;
+        let fault_here = matches!(st.fault, Some(f) if f.at_call == st.n_calls && f.at_item.is_some());
+        if st.disc == Discipline::DrainBounded && st.unbounded_ok && !fault_here && !st.budget_exceeded {
+            // Mixed consumption, unbounded: the transfer is opened with the first k colours pulled by
+            // `next`, the rest is streamed by internal iteration (`for_each`, which runs the stream's
+            // `fold`). Only for devices whose streams are finite by the property under check.
+            let k = match (ra.x0 + ra.y0) & 3 {
+                0 => 1,
+                1 => w as u64,
+                2 => 0,
+                _ => 2 * w as u64,
+            };
+            let mut ended = false;
+            while pulled < k {
+                match colors.next() {
+                    None => {
+                        ended = true;
+                        break;
+                    }
+                    Some(c) => place(st, &ra, w, n, &mut idx, &mut pulled, c.to_u32()),
+                }
+            }
+            if !ended {
+                colors.for_each(|c| {
+                    if pulled > n + UNBOUNDED_LIMIT {
+                        abort_unbounded();
+                    }
+                    place(st, &ra, w, n, &mut idx, &mut pulled, c.to_u32());
+                });
+            }
+            if st.cur_valid {
+                st.calls[st.cur].stream_ended = true;
+            }
+            note_hint(WHAT, hint, pulled, Some(pulled));
+            return Ok(());
+        }
         loop {
             // decide whether to pull another colour, per discipline
             let have_point = idx < n;
@@ -828,34 +947,18 @@ impl<C: SimColor> SimDisplay<C> {
                     if st.cur_valid {
                         st.calls[st.cur].stream_ended = true;
                     }
-                    break;
+                    note_hint(WHAT, hint, pulled, Some(pulled));
+                    return Ok(());
                 }
                 Some(c) => {
-                    let c = c.to_u32();
-                    pulled += 1;
-                    if have_point {
-                        let x = ra.x0 + (idx % w as u64) as i64;
-                        let y = ra.y0 + (idx / w as u64) as i64;
-                        st.note_item(x as i32, y as i32, c);
-                        st.store(x, y, c);
-                        idx += 1;
-                    } else {
-                        // surplus colour: no point left to pair it with
-                        st.note_item(i32::MIN, i32::MIN, c);
-                        if st.cur_valid {
-                            st.calls[st.cur].surplus += 1;
-                        }
-                        let s = pulled - n;
-                        if s > st.max_surplus {
-                            st.max_surplus = s;
-                        }
-                        if st.disc == Discipline::ZipColoursFirst {
-                            break;
-                        }
+                    place(st, &ra, w, n, &mut idx, &mut pulled, c.to_u32());
+                    if !have_point && st.disc == Discipline::ZipColoursFirst {
+                        break;
                     }
                 }
             }
         }
+        note_hint(WHAT, hint, pulled, None);
         Ok(())
     }
 
